@@ -1,1 +1,62 @@
-From QH Require Import Proxy.
+(* Properties_C13.v — C13: the proxy relays the upstream response faithfully and maps failures to 502. *)
+From Coq Require Import String List Ascii ZArith Permutation.
+From QH Require Import Bytes BytesProofs Value HeaderMap HeaderProofs Parser SocketM SockProofs C03Proofs Proxy ProxyProofs.
+Import ListNotations.
+
+(* for EVERY segmentation of the upstream stream (splits inside the head, at the head/body
+   boundary, in the body): same status, reason, header map; body bytes written through in order *)
+Theorem C13_relay_any_segmentation : forall segs buf i code reason h,
+  find_sub CRLFCRLF (buf ++ concat segs) = Some i ->
+  find_sub CRLFCRLF buf = None ->
+  parse_response_headers (firstn i (buf ++ concat segs)) = Ok (code, reason, h) ->
+  exists ws,
+    down_run {| d_parsed := false; d_buf := buf |} (map DData segs) =
+      [ASetStatus code (Some reason); ASetHeaders (rev h); AWriteHeaders] ++ map AWrite ws /\
+    concat ws = skipn (i + 4) (buf ++ concat segs).
+Proof. exact relay_any_segmentation. Qed.
+Print Assumptions C13_relay_any_segmentation.
+
+(* nothing is done on the client socket before the upstream head is complete *)
+Theorem C13_wait_for_head : forall segs buf,
+  find_sub CRLFCRLF (buf ++ concat segs) = None ->
+  down_run {| d_parsed := false; d_buf := buf |} (map DData segs) = [].
+Proof. exact down_wait. Qed.
+Print Assumptions C13_wait_for_head.
+
+(* on the wire towards the client: the upstream status line and header block, then the body *)
+Theorem C13_relay_wire : forall e s code reason h rest,
+  writable s -> wst s = WNone ->
+  tx_of (snd (apply_aops e s [ASetStatus code (Some reason); ASetHeaders (rev h); AWriteHeaders; AWrite rest])) =
+  response_head code reason (hm_of_list (rev h)) ++ rest.
+Proof. exact relay_wire. Qed.
+Print Assumptions C13_relay_wire.
+
+(* every upstream header value exactly once under its name *)
+Theorem C13_relayed_headers_multiset : forall h, Permutation (hm_of_list (rev h)) h.
+Proof. exact relayed_headers_multiset. Qed.
+Print Assumptions C13_relayed_headers_multiset.
+
+(* failures before a complete valid head: exactly one 502; after it: the client connection is closed *)
+Theorem C13_fault_502 : forall s,
+  d_parsed s = false ->
+  snd (down_step s DError) = [AWriteError 502 None] /\
+  (forall b i, find_sub CRLFCRLF (d_buf s ++ b) = Some i ->
+               (forall x, parse_response_headers (firstn i (d_buf s ++ b)) <> Ok x) ->
+               snd (down_step s (DData b)) = [AWriteError 502 None]).
+Proof. exact fault_502. Qed.
+Print Assumptions C13_fault_502.
+
+Theorem C13_closes_with_upstream : forall s, d_parsed s = true -> snd (down_step s DError) = [AClose].
+Proof. exact closes_with_upstream. Qed.
+Print Assumptions C13_closes_with_upstream.
+
+(* the 502 is a single well-formed response followed by the close, and nothing after it (C03, C19) *)
+Theorem C13_502_bytes : forall e s,
+  writable s -> wst s = WNone -> rh s = [] ->
+  let page := error_page 502 (status_reason 502) (version e) in
+  snd (write_error e s 502 None) =
+    [ETx (response_head 502 (status_reason 502) [(B "Content-Length", number (blen page)); (B "Content-Type", B "text/html")]);
+     ETx page; EClose] /\
+  tcp_open (fst (write_error e s 502 None)) = false.
+Proof. intros e s Hw Hs Hh. exact (error_response e s 502 None Hw Hs Hh). Qed.
+Print Assumptions C13_502_bytes.
